@@ -918,6 +918,22 @@ pub fn cmd_run(args: &[String]) -> i32 {
     fault_kinds.insert("storage_relocation_on_growth".into(), json!({"fired": g("realloc_moves")}));
     fault_kinds.insert("freed_storage_poisoned_and_quarantined".into(), json!({"fired": g("quarantined_blocks")}));
     fault_kinds.insert("injected_element_panic".into(), json!({"configured": g("fault_configured"), "fired": g("fault_fired_panic")}));
+    fault_kinds.insert("instruction_level_preemption_inside_one_operation".into(), json!({"configured_runs": g("fine_window_configured"), "fired": g("fine_window_preemptions_fired"), "instructions_single_stepped": g("fine_window_instructions_stepped")}));
+    if c.contains_key("anchored_window_configured") {
+        fault_kinds.insert("anchored_window_behind_an_interning_point".into(), json!({"configured_runs": g("anchored_window_configured"), "armed": g("anchored_window_armed"), "fired_right_after_an_atomic_instruction": g("anchored_window_fired_after_atomic_instruction")}));
+    }
+    if c.contains_key("runs_discarded_window_inside_unhooked_critical_section") {
+        fault_kinds.insert("runs_discarded_because_a_window_parked_a_thread_inside_an_unhooked_critical_section".into(), json!({"runs": g("runs_discarded_window_inside_unhooked_critical_section")}));
+    }
+    if c.contains_key("knob_page_reuse_runs") {
+        fault_kinds.insert("freed_jit_blocks_handed_out_again_instead_of_quarantined".into(), json!({"configured_runs": g("knob_page_reuse_runs"), "blocks_reused": g("pages_reused")}));
+    }
+    if c.contains_key("fault_owner_dropped_by_unwinding") {
+        fault_kinds.insert("owner_released_by_the_unwinding_of_a_panic".into(), json!({"fired": g("fault_owner_dropped_by_unwinding")}));
+    }
+    if c.contains_key("fault_failed_reload") {
+        fault_kinds.insert("failed_reload_ill_typed_version".into(), json!({"fired": g("fault_failed_reload")}));
+    }
     let probes: BTreeMap<&String, &u64> = c.iter().filter(|(k, _)| k.starts_with("probe_") || k.starts_with("site_") || k.starts_with("elem_") || k.starts_with("strategy_") || k.starts_with("op_")).collect();
     let samples: Vec<Value> = agg.samples.iter().take(3).cloned().collect();
     let rule = match prop.as_str() {
@@ -954,7 +970,7 @@ pub fn cmd_run(args: &[String]) -> i32 {
             "harness_errors": harness_errors,
         },
         "assumptions": [
-            "preemption happens at intercepted points only (hooked mutexes, tracked clone/drop/eq, host functions, interning, extern clone/drop/eq), not between arbitrary machine instructions",
+            "preemption happens at intercepted points (hooked mutexes, tracked clone/drop/eq, host functions, interning, extern clone/drop/eq) and, in a fraction of the runs, at one instruction-level point (after k instructions or after the j-th atomic instruction of one operation); a race that needs two cores inside one instruction is out of reach",
             "the getrandom shim and ASLR-off personality only affect reproducibility, not behaviour",
             "a clean batch is evidence, not proof: schedules and workloads are sampled"
         ],
